@@ -48,5 +48,22 @@ Tags == {If(c, <<NText("T")>>, <<>>, Else(<<NText("F")>>)) : c \in Conds}
         \cup {Include(V("nosuch"), "none", NilE, "", <<>>), With(<<WArg("w", XL9)>>, <<NText("in"), NOut(P(Y))>>),
               With(<<WArg("w", XL9)>>, <<NOut(P(V("w")))>>), Capture("z", <<NOut(P(XL9))>>)}
 MCPool == Outs \cup Tags
-MCPoolAt(i) == MCPool
+
+\* "probe": a name is first looked up while it is missing, then bound (include / render
+\* argument, with, for, arrow-function parameter, assign, capture), then used
+CONSTANT Variant    \* "single" | "probe"
+Probes == {NOut(P(V("v"))), NOut(P(V("w"))), NOut(P(V("i"))), NOut(P(V("z"))), If(V("v"), <<NText("t")>>, <<>>, NoElse),
+           NOut(F(V("v"), <<Fl("default", <<S("d")>>)>>))}
+Binders == {Include(S("p"), "none", NilE, "", <<WArg("v", Y)>>), Include(S("p"), "with", Y, "v", <<>>),
+            Include(S("p"), "for", VP("x", "l"), "v", <<>>), RenderT(S("p"), "with", Y, "v", <<>>),
+            RenderT(S("p"), "none", NilE, "", <<WArg("v", XAB)>>),
+            With(<<WArg("w", Y), WArg("v", XL9)>>, <<NOut(P(V("w"))), NOut(P(V("v")))>>),
+            For("i", VP("x", "l"), "x.l", NoOpt, NoOpt, FALSE, <<NOut(P(V("i")))>>, NoElse),
+            For("v", RangeE(I(1), I(2)), "(1..2)", NoOpt, NoOpt, FALSE, <<Include(S("p"), "none", NilE, "", <<>>)>>, NoElse),
+            NOut(F(VP("x", "l"), <<Fl("map", <<Lam(<<"i">>, V("i"))>>), Fl("join", <<>>)>>)),
+            NOut(F(VP("x", "l"), <<Fl("where", <<Lam(<<"v">>, V("v"))>>), Fl("join", <<>>)>>)),
+            Assign("z", P(Y)), Capture("w", <<NText("cap")>>), Assign("v", P(XAB))}
+MCPoolAt(i) ==
+  IF Variant = "single" THEN MCPool
+  ELSE CASE i = 1 -> Probes [] i = 2 -> Binders [] i = 3 -> Probes [] OTHER -> {}
 =============================================================================
